@@ -79,7 +79,6 @@ class PopenSpawn(SpawnBase):
         elif timeout is None:
             timeout = 1e6
 
-        t0 = time.time()
         while size and len(buf) < size:
             try:
                 incoming = self._read_queue.get_nowait()
@@ -91,10 +90,9 @@ class PopenSpawn(SpawnBase):
                     break
 
                 buf += self._decoder.decode(incoming, final=False)
-            # the time limit only bounds the draining of a long queue: what
-            # is already queued is looked at even with timeout=0
-            if (time.time() - t0) >= timeout:
-                break
+            # get_nowait() never blocks, so there is nothing to time out: all
+            # that is already queued (up to `size`) is returned, also with
+            # timeout=0
 
         r, self._buf = buf[:size], buf[size:]
 
